@@ -220,6 +220,8 @@ def zoned_rectangle_domain(length_x, length_y, n_x, n_y, transpose=False):
     n_i2 = 1
 
     z = zoned_rectangle(n_1, n_2, b_1, b_2, n_i1, n_i2)
+    if transpose:
+        z = transpose_coordinates(z)
     _zoned_rectangle_domain.append(z)
     field_descriptors.append(f"{n_1}X{n_2}_{n_i1}X{n_i2}_B1{b_1:0.2f}_B2{b_2:0.2f}")
 
@@ -301,8 +303,9 @@ def bi_rectangle_zoned_nested(length_x, length_y, b_min, b_max_x, b_max_y):
     f_d = []
     for i in range(len(n_1_values) + len(n_2_values) - 1):
         if index_l == 0:
-            b_x = length_x / (n_min_1 - 1)
-            b_y = length_y / (n_min_2 - 1)
+            # spacings along the longer (1) and shorter (2) side; transposed back below
+            b_x = length_1 / (n_min_1 - 1)
+            b_y = length_2 / (n_min_2 - 1)
 
             # go from one borehole to a line
             for index_l in range(1, n_min_1 + 1):
